@@ -132,6 +132,14 @@ def _apply(u, st, other):
         return u.with_host(U(st["v"]))
     if op == "with_port":
         return u.with_port(pyval(st["v"]))
+    if op == "with_host_self":          # C16: feed the URL's own raw_host / host back into with_host
+        try:
+            h = getattr(u, st["which"])
+        except Exception:  # noqa: BLE001 - e.g. an invalid A-label makes .host raise: outside the clause
+            raise _NotApplicable()
+        if not h:
+            raise _NotApplicable()
+        return u.with_host(h)
     if op == "with_fragment":
         return u.with_fragment(optx(st["v"]))
     if op == "with_path":
@@ -167,6 +175,10 @@ def _apply(u, st, other):
 
 
 CREATORS = ("ctor", "build")
+
+
+class _NotApplicable(Exception):
+    pass
 
 
 def _same(a, b):
@@ -217,7 +229,7 @@ def run_prog(prog, fields=None, extras=()):
         except BaseException as e:  # noqa: BLE001
             if isinstance(e, (KeyboardInterrupt, SystemExit)):
                 raise
-            rec["out"] = {"exc": type(e).__name__}
+            rec["out"] = {"exc": "n/a" if isinstance(e, _NotApplicable) else type(e).__name__}
             if argobj is not None:
                 rec["arg_unchanged"] = _same(argobj, before)
             recs.append(rec)
